@@ -169,6 +169,38 @@ fn gen_trial(rng: &mut Rng, id: u64) -> Trial {
     Trial { id, conns, receivers, unblocks_us }
 }
 
+/// Set when a library call made by the harness panicked (on a defective tree a receive call may
+/// panic while holding the queue mutex; every later queue operation then panics as well).
+pub static LIB_PANICKED: AtomicBool = AtomicBool::new(false);
+
+/// Queue operations of the monitor itself, safe against a poisoned queue mutex.
+pub trait SafeQueueOps {
+    fn vsnap(&self) -> tiny_http::verif::QueueSnapshot;
+    fn vunblock(&self);
+}
+
+impl SafeQueueOps for Server {
+    fn vsnap(&self) -> tiny_http::verif::QueueSnapshot {
+        match std::panic::catch_unwind(std::panic::AssertUnwindSafe(|| self.verif_queue_snapshot())) {
+            Ok(s) => s,
+            Err(_) => {
+                LIB_PANICKED.store(true, Ordering::SeqCst);
+                tiny_http::verif::QueueSnapshot { elems: 0, tokens: 0, pushes: 0, tokens_in: 0, blocked_pop: 0, blocked_pop_timeout: 0 }
+            }
+        }
+    }
+    fn vunblock(&self) {
+        if std::panic::catch_unwind(std::panic::AssertUnwindSafe(|| self.unblock())).is_err() {
+            LIB_PANICKED.store(true, Ordering::SeqCst);
+        }
+    }
+}
+
+/// Text of the panics recorded by the process-wide hook so far (not consumed).
+pub fn panic_texts() -> Vec<String> {
+    crate::env::panics_peek().iter().map(|p| format!("[{}] {} at {}", p.thread, p.message, p.location)).collect()
+}
+
 /// `u64::MAX` microseconds stands for `Duration::MAX` ("wait for ever" spelled as a timeout)
 pub fn timeout_of(us: u64) -> Duration {
     if us == u64::MAX {
@@ -206,14 +238,28 @@ pub fn receiver_loop(server: Arc<Server>, sh: Arc<Shared>, trial: u64, ridx: usi
             sh.in_recv.fetch_add(1, Ordering::SeqCst);
         }
         // Ok(Some) = request, Ok(None) = empty-handed, Err = unblocked
-        let r: Result<Option<tiny_http::Request>, ()> = match &op {
-            Op::Recv => lib(|| server.recv()).map(Some).map_err(|_| ()),
-            Op::IterNext => match lib(|| server.incoming_requests().next()) {
-                Some(rq) => Ok(Some(rq)),
-                None => Err(()),
-            },
-            Op::RecvTimeout(us) => lib(|| server.recv_timeout(timeout_of(*us))).map_err(|_| ()),
-            Op::TryRecv => lib(|| server.try_recv()).map_err(|_| ()),
+        let called = std::panic::catch_unwind(std::panic::AssertUnwindSafe(|| -> Result<Option<tiny_http::Request>, ()> {
+            match &op {
+                Op::Recv => lib(|| server.recv()).map(Some).map_err(|_| ()),
+                Op::IterNext => match lib(|| server.incoming_requests().next()) {
+                    Some(rq) => Ok(Some(rq)),
+                    None => Err(()),
+                },
+                Op::RecvTimeout(us) => lib(|| server.recv_timeout(timeout_of(*us))).map_err(|_| ()),
+                Op::TryRecv => lib(|| server.try_recv()).map_err(|_| ()),
+            }
+        }));
+        let r = match called {
+            Ok(r) => r,
+            Err(_) => {
+                // the receive call itself panicked inside the library
+                LIB_PANICKED.store(true, Ordering::SeqCst);
+                sh.ev(&who, format!("PANIC inside {:?}", op));
+                if blocking {
+                    sh.in_recv.fetch_sub(1, Ordering::SeqCst);
+                }
+                break;
+            }
         };
         if blocking {
             sh.in_recv.fetch_sub(1, Ordering::SeqCst);
@@ -344,15 +390,15 @@ pub fn wind_down(server: &Arc<Server>, sh: &Arc<Shared>, handles: Vec<std::threa
         }
         // one token per receiver still blocked in recv; repeated because (on a defective tree) a
         // token's notification can itself be lost
-        let s = server.verif_queue_snapshot();
+        let s = server.vsnap();
         if s.blocked_pop + s.blocked_pop_timeout > s.tokens {
-            server.unblock();
+            server.vunblock();
         } else {
             sleep_us(300);
-            let s2 = server.verif_queue_snapshot();
+            let s2 = server.vsnap();
             if s2.blocked_pop > 0 && s2.tokens >= s2.blocked_pop && sh.alive.load(Ordering::SeqCst) > 0 {
                 // tokens are queued, receivers still blocked: nudge
-                server.unblock();
+                server.vunblock();
             }
         }
         sleep_us(200);
@@ -362,7 +408,7 @@ pub fn wind_down(server: &Arc<Server>, sh: &Arc<Shared>, handles: Vec<std::threa
     }
     // drain left-over tokens / requests
     for _ in 0..10_000 {
-        let s = server.verif_queue_snapshot();
+        let s = server.vsnap();
         if s.elems == 0 && s.tokens == 0 {
             break;
         }
@@ -408,7 +454,7 @@ pub fn run_trial(ctx: &Ctx, env: &Env, trial: &Trial, case_seed: u64, mode: &str
             for t in times {
                 sleep_us(t);
                 sh.ev_pub("unb", "unblock()".into());
-                server.unblock();
+                server.vunblock();
             }
         })
     };
@@ -422,9 +468,13 @@ pub fn run_trial(ctx: &Ctx, env: &Env, trial: &Trial, case_seed: u64, mode: &str
     let mut inconclusive: Option<String> = None;
     loop {
         let n = sh.delivered.lock().unwrap().len();
-        let s = server.verif_queue_snapshot();
+        let s = server.vsnap();
         states.insert((s.elems.min(9), s.blocked_pop, s.blocked_pop_timeout));
         if n >= total {
+            break;
+        }
+        if LIB_PANICKED.load(Ordering::SeqCst) {
+            sleep_us(300_000);
             break;
         }
         if n != last_count {
@@ -437,7 +487,7 @@ pub fn run_trial(ctx: &Ctx, env: &Env, trial: &Trial, case_seed: u64, mode: &str
                 // stuck state: confirm it is stable, that we were scheduled, then kick
                 let s2 = {
                     sleep_us(20_000);
-                    server.verif_queue_snapshot()
+                    server.vsnap()
                 };
                 if s2.elems >= 1 && s2.blocked_pop >= 1 && s2.pushes == s.pushes && sh.delivered.lock().unwrap().len() == n {
                     if !cal.healthy(Duration::from_millis(150)) {
@@ -445,7 +495,7 @@ pub fn run_trial(ctx: &Ctx, env: &Env, trial: &Trial, case_seed: u64, mode: &str
                         break;
                     }
                     sh.ev("mon", format!("stuck: {:?} -> kick unblock()", s2));
-                    server.unblock();
+                    server.vunblock();
                     let kick_t = Instant::now();
                     let mut after = n;
                     while kick_t.elapsed() < Duration::from_millis(150) {
@@ -480,7 +530,7 @@ pub fn run_trial(ctx: &Ctx, env: &Env, trial: &Trial, case_seed: u64, mode: &str
             }
             if last_progress.elapsed() > Duration::from_millis(2500) {
                 // clients done? then requests are missing
-                let s3 = server.verif_queue_snapshot();
+                let s3 = server.vsnap();
                 let sent = sh.sent.load(Ordering::SeqCst);
                 let n = sh.delivered.lock().unwrap().len();
                 if !cal.healthy(Duration::from_millis(250)) {
@@ -515,7 +565,26 @@ pub fn run_trial(ctx: &Ctx, env: &Env, trial: &Trial, case_seed: u64, mode: &str
         answered += h.join().unwrap_or(0);
     }
     let _ = unb.join();
-    if !wind_down(&server, &sh, rh) {
+    let poisoned = LIB_PANICKED.load(Ordering::SeqCst);
+    if poisoned {
+        // a receive call panicked inside the library; when that happened under the queue mutex
+        // no request can be queued any more and blocked receivers can never be released
+        let sent = sh.sent.load(Ordering::SeqCst);
+        let n = sh.delivered.lock().unwrap().len();
+        verdict = Some((
+            "C07/receive-call-panicked".into(),
+            format!(
+                "a receive call panicked inside the library; {} of {} requests written afterwards or before were never handed to a receiver",
+                sent.saturating_sub(n),
+                sent
+            ),
+            J::obj().set("panics", J::A(panic_texts().iter().take(6).map(J::s).collect())),
+        ));
+        inconclusive = None;
+        sh.stop.store(true, Ordering::SeqCst);
+        // blocked receivers cannot be released through a poisoned queue: leave them behind
+        drop(rh);
+    } else if !wind_down(&server, &sh, rh) && verdict.is_none() {
         inconclusive = Some("receivers did not wind down".into());
     }
     // offline checks over the delivery history
@@ -640,6 +709,11 @@ pub fn run(ctx: &Ctx) {
         let t = gen_trial(&mut r, cs & 0xffff_ffff);
         run_trial(ctx, &env, &t, cs, "native");
         env.cases_run += 1;
+        if LIB_PANICKED.load(Ordering::SeqCst) {
+            // the shared server is unusable from here on
+            std::mem::forget(env);
+            break;
+        }
         idx += 1;
         if ctx.rep.n_violations() >= 6 {
             break;
